@@ -241,6 +241,13 @@ func (e *executor) processInput(workflow *Workflow) (schema.Scope, error) {
 	if err := validateRootObject(typedInput); err != nil {
 		return nil, &ErrInvalidWorkflow{fmt.Errorf("invalid workflow input section (%w)", err)}
 	}
+	for key, object := range typedInput.Objects() {
+		if object.ID() != key {
+			// References are resolved by ID, so such an object could not be found later.
+			return nil, &ErrInvalidWorkflow{fmt.Errorf(
+				"invalid workflow input section (object with ID '%s' is listed under the key '%s')", object.ID(), key)}
+		}
+	}
 	// Validate the defaults on a throw-away copy, because decoded defaults are cached in the scope.
 	if scopeCopy, err := schema.DescribeScope().Unserialize(workflow.Input); err == nil {
 		if err := validateDefaults(scopeCopy.(schema.Scope)); err != nil {
